@@ -13,6 +13,12 @@ KEY_KINDS = ('int', 'str', 'tuple', 'fd')
 
 
 def skey(kind, i):
+    if kind == 'float':
+        # twin of 'int': keys that compare (and hash) equal to the int keys but are of another type
+        return float(i)
+    if kind == 'fdf':
+        from frozendict import frozendict
+        return frozendict(s=float(i))
     if kind == 'int':
         return i
     if kind == 'str':
@@ -26,6 +32,12 @@ def skey(kind, i):
 
 
 def akey(kind, i):
+    if kind == 'float':
+        # twin of 'int': keys that compare (and hash) equal to the int keys but are of another type
+        return float(100 + i)
+    if kind == 'fdf':
+        from frozendict import frozendict
+        return frozendict(a=float(i))
     if kind == 'int':
         return 100 + i
     if kind == 'str':
@@ -39,6 +51,12 @@ def akey(kind, i):
 
 
 def okey(kind, i):
+    if kind == 'float':
+        # twin of 'int': keys that compare (and hash) equal to the int keys but are of another type
+        return float(200 + i)
+    if kind == 'fdf':
+        from frozendict import frozendict
+        return frozendict(o=float(i))
     if kind == 'int':
         return 200 + i
     if kind == 'str':
@@ -162,7 +180,7 @@ class MDPView:
         return min(rs), max(rs)
 
 
-def make_mdp(view, ctx=None, dist='dict', alias='fresh'):
+def make_mdp(view, ctx=None, dist='dict', alias='fresh', explicit_lists=False):
     """Expose the spec through msdm's QuickTabularMDP.  `ctx` (optional)
     receives call-back notifications: ctx.cb(name, *ids).
 
@@ -170,7 +188,11 @@ def make_mdp(view, ctx=None, dist='dict', alias='fresh'):
       'fresh'  a new list per call;
       'cached' the model's own per-state list object, the same one on every call;
       'shared' one list object for all states when the action sets are uniform
-               (like QuickTabularMDP(actions=[...])), else as 'cached'."""
+               (like QuickTabularMDP(actions=[...])), else as 'cached';
+      'tuple'  a new tuple per call.
+    explicit_lists: the model declares its state and action lists itself (every
+    state of the spec, reachable from the initial states or not) instead of
+    letting msdm infer them by reachability."""
     from msdm.core.mdp import QuickTabularMDP
     from msdm.core.distributions import DictDistribution
     sk, ak, sid, aid = view.sk, view.ak, view.sid, view.aid
@@ -195,6 +217,8 @@ def make_mdp(view, ctx=None, dist='dict', alias='fresh'):
         cb('actions', sid[s])
         if alias == 'fresh':
             return [ak[a] for a in view.A[sid[s]]]
+        if alias == 'tuple':
+            return tuple(ak[a] for a in view.A[sid[s]])
         key = 'all' if (alias == 'shared' and uniform) else sid[s]
         if key not in own_lists:
             own_lists[key] = [ak[a] for a in view.A[sid[s]]]
@@ -208,9 +232,13 @@ def make_mdp(view, ctx=None, dist='dict', alias='fresh'):
         cb('is_absorbing', sid[s])
         return sid[s] in view.absorbing
 
-    return QuickTabularMDP(next_state_dist=next_state_dist, reward=reward, actions=actions,
-                           initial_state_dist=initial_state_dist, is_absorbing=is_absorbing,
-                           discount_rate=view.gamma)
+    m = QuickTabularMDP(next_state_dist=next_state_dist, reward=reward, actions=actions,
+                        initial_state_dist=initial_state_dist, is_absorbing=is_absorbing,
+                        discount_rate=view.gamma)
+    if explicit_lists:
+        m._state_list = [sk[i] for i in range(view.N)]
+        m._action_list = [ak[i] for i in range(view.spec['nA'])]
+    return m
 
 
 # ------------------------------------------------------------------ POMDP spec
